@@ -299,3 +299,60 @@ def ob_sql_query_epilogue(nrows: int, fail_at: int, cancel_after: int, rounds: i
             return "round %d: query slot not released (%d held) after %s" % (
                 r, st.query_slot.acquired, "cancellation" if cancel_after >= 0 else "the query")
     return "ok"
+
+
+@obligation(funcs=["storage.kv.Subscription.run_query"], timeout=(200, 900),
+            bounds="the REAL LMDB stored-query task over an executor that yields 0-2 plan results and then ends, raises (symbolic "
+                   "position) or is cancelled after a symbolic number of loop passes: exactly one sentinel is queued in every case "
+                   "in which the task body ran, after the events")
+def ob_kv_query_epilogue(nplans: int, fail_at: int, cancel_after: int) -> str:
+    """
+    pre: 0 <= nplans <= 2 and -1 <= fail_at <= 2 and -1 <= cancel_after <= 3
+    post: _.startswith("ok")
+    """
+    logging.disable(logging.CRITICAL)
+    from nostr_relay.storage import kv
+    loop = Loop()
+    C.install(loop)
+    st = C.Store(loop)
+    st.query_pool = None
+
+    async def executor(env, plans, pool, **kw):
+        for i in range(nplans):
+            await loop.sleep(0)
+            if i == fail_at:
+                raise RuntimeError("executor failed")
+            yield ("plan%d" % i, [C.STORED[i]])
+        if fail_at >= nplans:
+            await loop.sleep(0)
+
+    kv.executor = executor
+    kv.analyze = lambda *a, **k: None
+    q = loop.namespace().Queue()
+    sub = kv.Subscription(st, "s", [], queue=q, client_id="c", auth_token={})
+    sub.query = kv.QueryPlans()
+    task = loop.create_task(sub.run_query(), "query")
+
+    async def driver():
+        if cancel_after >= 0:
+            for _ in range(cancel_after):
+                await loop.sleep(0)
+            task.cancel()
+        try:
+            await task
+        except C.CancelledError:
+            pass
+
+    try:
+        loop.run(driver())
+    except Deadlock as e:
+        return "query task wedged: %s" % e
+    sentinels = [i for i, x in enumerate(q.items) if x == ("s", None)]
+    started = task.waiting is not None or task.finished and not (task.was_cancelled and not q.items and cancel_after == 0)
+    if len(sentinels) > 1:
+        return "%d sentinels queued" % len(sentinels)
+    if cancel_after != 0 and len(sentinels) != 1:
+        return "query task ended (plans=%d, failure at %d, cancelled after %d) without its sentinel: %r" % (nplans, fail_at, cancel_after, q.items)
+    if sentinels and sentinels[0] != len(q.items) - 1:
+        return "events queued after the sentinel"
+    return "ok"
